@@ -37,7 +37,7 @@ class CuckooWorld(Scenario):
         cfg = {
             "counting": counting,
             "capacity": rng.weighted([(3, 1), (4, 2), (4, 3), (3, 4), (2, 5), (2, 6), (1, 8), (1, 13)]),
-            "bucket_size": rng.weighted([(6, 1), (8, 2), (4, 3), (4, 4), (1, 9), (1, 12)]),
+            "bucket_size": rng.weighted([(12, 1), (16, 2), (8, 3), (8, 4), (2, 9), (2, 12), (1, 17), (1, 20)]),
             "max_swaps": rng.choice(MAX_SWAPS),
             "finger_size": rng.weighted([(3, 1), (2, 2), (3, 4)]),
             "auto_expand": rng.chance(1, 2),
@@ -62,6 +62,10 @@ class CuckooWorld(Scenario):
         if self.allow_huge and rng.chance(1, 150 if os.environ.get("DSIM_TIER") != "thorough" else 60):
             cfg.update({"capacity": rng.choice((17000, 22000)), "bucket_size": 4, "universe": 400, "steps": rng.between(20, 40),
                         "fanout": False, "fan_all": False, "huge": True})
+        if cfg["bucket_size"] >= 17:
+            # wide buckets are only interesting once they are full: a tiny table and enough distinct keys
+            cfg.update({"capacity": rng.choice((1, 2)), "universe": 60, "steps": self.max_steps,
+                        "max_swaps": rng.choice((1, 2, 5, 50))})
         if rng.chance(1, 30):
             # very long eviction chains (beyond the interpreter's default recursion limit and any fixed-size log);
             # a small table so that chains are actually exhausted
